@@ -111,9 +111,29 @@ static void yv_lset_del (void *p)
 #include <execinfo.h>
 static void *yv_fail_bt[12];	/* return addresses at the moment the failure was injected */
 static int yv_fail_bt_n;
+/* counting pass: the call site (hash of the callers' return addresses) of every request after yv_sites_from, so that the driver
+   can fail each distinct site at least at its first and last request */
+static int yv_sites_on;
+static long yv_sites_from;
+static unsigned long *yv_sites;
+static long yv_sites_n, yv_sites_cap;
+static void yv_record_site (void)
+{
+  void *bt[10];
+  int save = yv_in_lib, n, i;
+  unsigned long h = 1469598103934665603UL;
+  yv_in_lib = 0;
+  n = backtrace (bt, 10);
+  for (i = 3; i < n && i < 8; i++) { h ^= (unsigned long) bt[i]; h *= 1099511628211UL; }
+  if (yv_sites_n == yv_sites_cap)
+    { yv_sites_cap = yv_sites_cap ? yv_sites_cap * 2 : 4096; yv_sites = (unsigned long *) __real_realloc (yv_sites, yv_sites_cap * sizeof (unsigned long)); }
+  yv_sites[yv_sites_n++] = h;
+  yv_in_lib = save;
+}
 static int yv_should_fail (void)
 {
   yv_lib_allocs++;
+  if (yv_sites_on) yv_record_site ();
   if (yv_fail_at > 0 && (yv_lib_allocs == yv_fail_at || (yv_fail_sticky && yv_lib_allocs > yv_fail_at)))
     {
       if (yv_lib_allocs == yv_fail_at)
